@@ -234,7 +234,9 @@ pub fn absorbing_rich_layout(rng: &mut Rng) -> Layout {
     let shared: Vec<KeyCode> = mappings.iter().flat_map(|m| m.to.iter().cloned()).collect();
     let from_key = *rng.pick(&[F, C, B, X]);
     if !shared.is_empty() && !mappings.iter().any(|m| m.from.len() == 1 && m.from[0] == from_key) {
-      let y = *rng.pick(&shared);
+      // mostly a key a chord already outputs; sometimes the key itself (an identity mapping that only sets a repeat mode,
+      // the way repeat-only entries of the fancy format convert)
+      let y = if rng.chance(1, 3) { from_key } else { *rng.pick(&shared) };
       let to = if rng.chance(1, 4) { vec![LEFTSHIFT, y] } else { vec![y] };
       let mut t2: Vec<KeyCode> = Vec::new();
       for k in to { if !t2.contains(&k) { t2.push(k); } }
